@@ -12,9 +12,36 @@ def is_one(e):
     return isinstance(e, E) and e.op == 'const' and e.val == 1
 
 
-def raises(ir, name, exact=True):
-    """Assignments that can make signal `name` non-zero (rhs is not the constant 0)."""
-    return [a for a in ir.drivers(name, exact=exact) if a.rhs is not None and not is_zero(a.rhs)]
+def raises(ir, name, exact=True, fold=True):
+    """Assignments that can make signal `name` non-zero (rhs is not the constant 0).
+
+    `flag.eq(cond)` under guard G raises the flag exactly when G & cond holds -- the same as `with m.If(cond): flag.eq(1)`
+    under G.  With `fold` (default) such an assignment to a one-bit signal is returned in that second form: a copy whose
+    guard is extended by the conjuncts of the condition and whose right-hand side is the constant 1 (`.unfolded` is the
+    original assignment), so that a rule sees one form for both spellings."""
+    out = []
+    for a in ir.drivers(name, exact=exact):
+        if a.rhs is None or is_zero(a.rhs):
+            continue
+        out.append(_fold(ir, a) if fold else a)
+    return out
+
+
+def _fold(ir, a):
+    from .ir import _known_one_bit, _is_bool
+    r = a.rhs
+    if not isinstance(r, E) or r.op == 'const' or not isinstance(a.lhs, E) or a.lhs.op != 'sig':
+        return a
+    if getattr(a.lhs.args[0], 'w', None) not in (1, None):
+        return a
+    if not (_known_one_bit(r) or (r.op in ('sig', '&', '|', '~') and _is_bool(r))):
+        return a
+    import copy
+    b = copy.copy(a)
+    b.guard = tuple(a.guard) + tuple(literals(r, True))
+    b.rhs = E('const', val=1, w=1)
+    b.unfolded = a
+    return b
 
 
 def clears(ir, name, exact=True):
@@ -256,3 +283,25 @@ def common_atoms(items, without=()):
     if not sets:
         return {}
     return {a: p for a, p in set.intersection(*sets) if a not in without}
+
+
+def bits_drivers(ir, name, lo, hi):
+    """[(assignment, expression driving bits lo..hi-1 of `name`)] over all drivers -- whether the signal is assigned as a
+    whole (`x.eq(Cat(a, b, c))`) or slice by slice (`x[0:8].eq(a)` ...).  A driver that covers the range only partly is
+    returned with None."""
+    from .hdl import slice_of
+    out = []
+    for a in ir.drivers(name, exact=True):
+        l = a.lhs
+        if not isinstance(a.rhs, E):
+            continue
+        if l.op == 'sig':
+            out.append((a, slice_of(a.rhs, lo, hi) if (a.rhs.op == 'cat' or (isinstance(a.rhs.w, int) and a.rhs.w >= hi)) else None))
+        elif l.op == 'slice' and isinstance(l.args[1], int) and isinstance(l.args[2], int):
+            s0, s1 = l.args[1], l.args[2]
+            if s1 <= lo or s0 >= hi:
+                continue
+            out.append((a, slice_of(a.rhs, lo - s0, hi - s0) if (s0 <= lo and hi <= s1 and (s1 - s0 == hi - lo or isinstance(a.rhs.w, int))) else None))
+        else:
+            out.append((a, None))
+    return out
